@@ -557,6 +557,12 @@ func TestVf_C08(t *testing.T) {
 	}
 	// WebSocket: once the server has closed the connection - politely or not - nothing can reach the wire any more, so
 	// no send may report success
+	for i := 0; i < vfkit.Pick(2, 12); i++ {
+		c++
+		vfC08AckRequests(run, vfkit.Seed()*100000+c)
+		c++
+		vfC08WSVerbatim(run, vfkit.Seed()*100000+c)
+	}
 	var wsw sync.WaitGroup
 	for _, code := range []int{1000, 1001, 1008, 1011} {
 		c++
@@ -671,4 +677,142 @@ func vfC08WSClosed(run *vfkit.Run, code int, seed int64) {
 	}
 	run.Count("sends_after_websocket_close_refused", 3)
 	run.Nontrivial(fmt.Sprintf("ws-closed|%d", code))
+}
+
+// vfC08AckRequests: acknowledgement requests are packets like any other as far as Send is concerned - every call that
+// returns nil has put its <r/> on the wire, however many are outstanding.
+func vfC08AckRequests(run *vfkit.Run, seed int64) {
+	cs := map[string]interface{}{"mode": "client-tcp", "what": "Send(SMRequest) several times without an answer in between", "seed": seed}
+	run.Case(cs)
+	r := rand.New(rand.NewSource(seed))
+	ready := make(chan struct{})
+	var pcc *vfPeerConn
+	mark := 0
+	var perr error
+	peer := vfNewPeer(func(pc *vfPeerConn) {
+		if _, err := pc.Negotiate(&vfNeg{SM: true, ExpectEnable: true, SMResume: "true", ExpectPresence: true, Bind: true}); err != nil {
+			perr = err
+			close(ready)
+			return
+		}
+		pcc, mark = pc, len(pc.ClearBytes())
+		close(ready)
+		for {
+			if _, err := pc.Next(); err != nil {
+				return
+			}
+		}
+	})
+	defer peer.Stop()
+	c, _, err := vfNewClient(vfClientOpt{Addr: peer.Addr(), Insecure: true, SM: true, SMResume: true}, NewRouter())
+	if err != nil {
+		run.Inconclusive("newclient")
+		return
+	}
+	if err := c.Connect(); err != nil {
+		run.Inconclusive("connect")
+		return
+	}
+	defer func() { go c.Disconnect() }()
+	<-ready
+	if perr != nil {
+		run.Inconclusive("peer-script")
+		return
+	}
+	var want strings.Builder
+	nr := 0
+	for i, n := 0, 6+r.Intn(10); i < n; i++ {
+		if r.Intn(3) == 0 {
+			m := stanza.Message{Attrs: stanza.Attrs{Id: fmt.Sprintf("ar-%d-%d", seed, i), To: "a@b"}, Body: "between requests"}
+			b, _ := xml.Marshal(m)
+			if err := c.Send(m); err != nil {
+				run.Violation("C08/send-error-without-fault:client-tcp:sm=true:log=false", err.Error(), cs)
+				return
+			}
+			want.Write(b)
+			continue
+		}
+		req := stanza.SMRequest{}
+		b, _ := xml.Marshal(req)
+		if err := c.Send(req); err != nil {
+			run.Violation("C08/send-error-without-fault:client-tcp:sm=true:log=false", err.Error(), cs)
+			return
+		}
+		want.Write(b)
+		nr++
+	}
+	wire := func() string { return strings.Replace(pcc.ClearBytes()[mark:], "\n", "", -1) }
+	vfWaitUntil(10*time.Second, func() bool { return len(wire()) >= want.Len() })
+	if w := wire(); w != want.String() {
+		run.Violation("C08/ack-request-not-on-wire", fmt.Sprintf("%d Send(SMRequest) calls (and the messages between them) all returned nil; the peer received %q, the calls amount to %q", nr, vfClip2(w, 400), vfClip2(want.String(), 400)), cs)
+		return
+	}
+	run.Count("ack_requests_on_wire", int64(nr))
+	run.Nontrivial(fmt.Sprintf("ack-requests|%d", seed))
+}
+
+// vfC08WSVerbatim: SendRaw is verbatim over WebSocket as well - whatever bytes the string holds.
+func vfC08WSVerbatim(run *vfkit.Run, seed int64) {
+	cs := map[string]interface{}{"mode": "client-ws", "what": "SendRaw of strings that are not valid UTF-8", "seed": seed}
+	run.Case(cs)
+	ready := make(chan struct{})
+	var perr error
+	var wsc *vfWSConn
+	wp := vfNewWSPeer(nil, func(w *vfWSConn) {
+		if err := vfWSNegotiate(w, false, true); err != nil {
+			perr = err
+			close(ready)
+			return
+		}
+		wsc = w
+		close(ready)
+		for {
+			if _, err := w.Read(); err != nil {
+				return
+			}
+		}
+	})
+	defer wp.Stop()
+	c, _, err := vfNewClient(vfClientOpt{Addr: wp.URL(), Insecure: true}, NewRouter())
+	if err != nil {
+		run.Inconclusive("newclient")
+		return
+	}
+	if err := c.Connect(); err != nil {
+		run.Inconclusive("connect-ws")
+		return
+	}
+	defer func() { go c.Disconnect() }()
+	<-ready
+	if perr != nil {
+		run.Inconclusive("peer-script")
+		return
+	}
+	raws := []string{
+		fmt.Sprintf("<message id='v%d-1' to='x@y'><body>caf\xe9 au lait</body></message>", seed),                   // Latin-1 byte
+		fmt.Sprintf("<message id='v%d-2' to='x@y'><body>\xff\xfe\x00 not text at all \xc3</body></message>", seed), // truncated sequence at the end
+		fmt.Sprintf("<message id='v%d-3' to='x@y'><body>\xed\xa0\x80 lone surrogate, \xc0\xaf overlong</body></message>", seed),
+		fmt.Sprintf("<message id='v%d-4' to='x@y'><body>plain ascii control</body></message>", seed),
+	}
+	before := len(wsc.Received())
+	for _, x := range raws {
+		if err := c.SendRaw(x); err != nil {
+			run.Inconclusive("sendraw-refused") // refusing is not claiming success
+			return
+		}
+	}
+	vfWaitUntil(10*time.Second, func() bool { return len(wsc.Received()) >= before+len(raws) })
+	got := wsc.Received()[before:]
+	for i, x := range raws {
+		if i >= len(got) || got[i] != x {
+			g := "(nothing)"
+			if i < len(got) {
+				g = got[i]
+			}
+			run.Violation("C08/stanza-not-whole-on-wire:client-ws:raw-bytes", fmt.Sprintf("SendRaw(%q) returned nil; the peer received %q", x, g), cs)
+			return
+		}
+	}
+	run.Count("raw_byte_strings_verbatim_over_websocket", int64(len(raws)))
+	run.Nontrivial(fmt.Sprintf("ws-verbatim|%d", seed))
 }
